@@ -661,7 +661,15 @@ func describeShallow(v ssa.Value, d func(ssa.Value) string) string {
 	case *ssa.Range:
 		return "range(" + d(x.X) + ")"
 	case *ssa.Select:
-		return "select"
+		var st []string
+		for _, c := range x.States {
+			if c.Dir == types.RecvOnly {
+				st = append(st, "<-"+d(c.Chan))
+			} else {
+				st = append(st, d(c.Chan)+"<-")
+			}
+		}
+		return "select(" + strings.Join(st, ", ") + ")"
 	}
 	return fmt.Sprintf("<%T>", v)
 }
